@@ -32,7 +32,10 @@ def lin_cases(draw, tier="quick", nmin=1):
          "b": draw(gen.vec(m)), "x0": draw(st.one_of(st.just([0.0] * n), gen.vec(n))),
          "form": draw(st.sampled_from(["matrix", "sparse", "function"])),
          # memory layout of the arrays handed to the solver (operator matrix, right-hand side, start vector)
-         "layout": draw(st.sampled_from(gen.LAYOUTS))}
+         "layout": draw(st.sampled_from(gen.LAYOUTS)),
+         # degenerate data: a zero right-hand side, or a start vector that already is the solution (zero residual at the first
+         # iteration: the solution must come back, not nan from 0/0)
+         "special": draw(st.sampled_from([None, None, None, None, "zero_rhs", "start_at_solution"]))}
     return c
 
 
@@ -76,8 +79,12 @@ def run_cgls(c, rec):
     Am = build_A(c)
     m, n = Am.shape
     b, x0, s = V(c, "b"), V(c, "x0"), c["shift"]
+    if c.get("special") == "zero_rhs":
+        b = gen.relayout(np.zeros(m), c.get("layout", "plain"))
+    elif c.get("special") == "start_at_solution" and (m >= n or s > 0):
+        x0 = gen.relayout(np.linalg.solve(Am.T @ Am + s * np.eye(n), Am.T @ b), c.get("layout", "plain"))
     tags = {"solver": "CGLS", "form": c["form"], "shape": "over" if m > n else ("under" if m < n else "square"),
-            "shift": s > 0}
+            "shift": s > 0, "special": str(c.get("special"))}
     if rec.classify(tags, (m != n or np.any(x0 != 0)) and s > 0 or (m != n and np.any(x0 != 0))):
         return
     maxit = 50 * n + 200
@@ -124,6 +131,10 @@ def run_pcgls(c, rec):
     Am = build_A(c)
     m, n = Am.shape
     b, x0 = V(c, "b"), V(c, "x0")
+    if c.get("special") == "zero_rhs":
+        b = gen.relayout(np.zeros(m), c.get("layout", "plain"))
+    elif c.get("special") == "start_at_solution" and m >= n:
+        x0 = gen.relayout(np.linalg.solve(Am.T @ Am, Am.T @ b), c.get("layout", "plain"))
     if c["Pkind"] == "identity":
         P = np.eye(n)
     elif c["Pkind"] == "diag":
@@ -135,7 +146,7 @@ def run_pcgls(c, rec):
     else:
         P = np.diag(c["Pd"]) + np.tril(A(c["Pl"]), -1)
     tags = {"solver": "PCGLS", "form": c["form"], "P": c["Pkind"], "shape": "over" if m > n else ("under" if m < n else "square"),
-            "branch": "solve" if c.get("solve_branch") else "explicit_inverse"}
+            "branch": "solve" if c.get("solve_branch") else "explicit_inverse", "special": str(c.get("special"))}
     if rec.classify(tags, c["Pkind"] != "identity" and (m != n or np.any(x0 != 0))):
         return
     maxit = 50 * n + 200
